@@ -12,7 +12,7 @@ SMALL = ["gammadet", "gdet", "betamag", "gtt", "nup4", "gdown4"]
 def specs_for(tier, seed, graph):
     s = [
         # safety layer: ANY set of unfrozen entries older than one calculation may go at any clean-up point
-        dict(pres="components", nreq=3, ce=2, policy="any", requests=SMALL, emit=False, allow_freeze=True, allow_load=True, coverage=True,
+        dict(pres="components", nreq=3, ce=2, policy="any", requests=SMALL, emit=False, allow_freeze=True, allow_load=True, allow_functions=True, coverage=True,
              label="safety layer (any eviction), metric sub-graph, 3 requests incl. freeze_data / load_data between, ce=2"),
         dict(pres="components", nreq=2, ce=1, policy="any", requests=SMALL, emit=False,
              label="safety layer (any eviction), metric sub-graph, 2 requests, ce=1"),
@@ -20,11 +20,12 @@ def specs_for(tier, seed, graph):
         dict(pres="tensors", nreq=2, ce=1, mt=True, label="real graph, tensors, 2 requests exhaustive, ce=1 and memory threshold tiny"),
         dict(pres="components", nreq=1, ce=1, label="real graph, components, 1 request, ce=1"),
         dict(pres="minimal", nreq=1, ce=2, mt=True, label="real graph, minimal, 1 request, ce=2 mem tiny"),
-        dict(pres="tensors", nreq=6, ce=1, simulate=6, seed=seed + 1, emit=False, allow_freeze=True, allow_load=True, label="simulate 6 requests ce=1 with freeze_data / load_data between"),
+        dict(pres="tensors", nreq=6, ce=1, simulate=6, seed=seed + 1, emit=False, allow_freeze=True, allow_load=True, allow_functions=True,
+             label="simulate 6 requests ce=1 with freeze_data / load_data / method fetches between"),
         dict(pres="components", nreq=6, ce=3, mt=True, simulate=6, seed=seed + 2, emit=False, label="simulate 6 requests ce=3 mem tiny"),
         dict(pres="tensors", nreq=6, ce=2, freeze=False, allow_freeze=True, allow_load=True, simulate=4, seed=seed + 3, emit=False,
              label="simulate: inputs NOT frozen first, freeze_data / load_data later (only what is frozen is asserted)"),
-        dict(pres="components", nreq=5, ce=2, allow_load=True, simulate=6, seed=seed + 6, emit=False,
+        dict(pres="components", nreq=5, ce=2, allow_load=True, allow_functions=True, simulate=6, seed=seed + 6, emit=False,
              label="simulate 5 requests ce=2 with a load_data call that carries only part of the frozen inputs"),
     ]
     if tier == "thorough":
@@ -101,7 +102,7 @@ def run(tier, seed):
     specs = CC.run_models(run, graph, [dict(sp, properties=M.PROPERTIES + ["AbsSafety"]) for sp in specs_for(tier, seed, graph)], plan, opts)
     run.info["tlc_models"] = [{k: v for k, v in sp.items() if k != "requests"} for sp in specs]
     # vacuity: the actions the invariants talk about must have been taken in the exhaustive safety-layer run
-    never = [a for a in ("Request", "Freeze", "Load", "StepRead", "StepTest", "Return") if run.coverage_actions.get(a, (0, 0))[1] == 0]
+    never = [a for a in ("Request", "RequestFunction", "Freeze", "Load", "StepRead", "StepTest", "Return") if run.coverage_actions.get(a, (0, 0))[1] == 0]
     if never:
         raise RuntimeError(f"vacuous model run: actions never taken: {never}")
     liveness(run, graph)
